@@ -332,10 +332,28 @@ def specs(tier, seed):
     n = 12
     for i in range(0, len(cells), n):
         out.append(('cells', i // n, tuple(cells[i:i + n])))
+    # 4. inside simulations: at every recorded instant the recorded force and stresses are what the element's formulas
+    # give from the torques recorded at that instant (also while a self-locking chain is held and the supply is cut)
+    from props import sim
+    fullv = (('module', 1.0), ('face_width', 8.0), ('elastic_modulus', 200.0))
+    cut = ('const', ((0.1, 10.0, 0.0),))
+    out.append(sim.spec('T1', schedule=(('run', 3),), opt=((1, fullv), (2, fullv)), tag=':stress'))
+    out.append(sim.spec('T7', schedule=(('run', 3),), control=cut, tag=':stress_supply_cut',
+                        opt=((1, (('reference_diameter', 10.0),)), (2, fullv[:2]), (3, fullv), (4, fullv))))
+    out.append(sim.spec('T7', schedule=(('run', 2), ('run', 2)), control=('fixed', -0.75), tag=':stress_reverse',
+                        opt=((1, (('reference_diameter', 10.0),)), (2, fullv[:2]), (3, fullv), (4, fullv))))
+    if tier == 'thorough':
+        out.append(sim.spec('T6', schedule=(('run', 3),), tag=':stress',
+                            opt=((2, (('reference_diameter', 10.0),)), (3, fullv[:2]), (4, fullv), (5, fullv), (6, fullv), (7, fullv))))
+        out.append(sim.spec('T4', schedule=(('run', 2),), control=('arb', -1, 1), tag=':stress_arbitrary_duty',
+                            opt=((1, (('reference_diameter', 10.0),)), (2, fullv[:2]))))
     return out
 
 
 def build(sp):
+    if sp[0] == 'sim':
+        from props import sim
+        return sim.build_spec(sp, ('C09',))
     _, i, cells = sp
     return Batch('cells:%d' % i, [GearStress(c[0], c[1], c[2], c[3], c[4], c[5], c[6], c[7], dict(c[8]), idx=i,
                                              remate=(len(c) > 9 and c[9])) for c in cells])
@@ -350,7 +368,7 @@ BOUNDS = {
              '{module, face width} x worm with/without reference diameter) and worm gear; teeth numbers at table knots, '
              'midpoints, 499..520; helix 0..89.9 deg; module, face width in [0.1 mm, 10 m], moduli in [1e6, 1e13] Pa, worm '
              'diameter and the reference torque (any real, either sign) symbolic; 8 seeded unit assignments (independent units for the '
-             'gear and its mate); every kind and role also after a first mating + evaluation with another mate (re-declared relation)',
+             'gear and its mate); every kind and role also after a first mating + evaluation with another mate (re-declared relation); inside simulations (T1; self-locking T7 with the supply cut at t = 0.1 s and with a negative duty over a continuation) every recorded force / stress sample equals what the formulas of the element give from the torques recorded at the same instant',
     'thorough': 'every teeth number 10..520 for spur gears; helical gears at four helix angles; 32 unit assignments',
 }
 OUTSIDE = ('the Lewis factor of a helical gear uses tan(beta_b) = tan(beta) cos(alpha_t) (the code\'s, and the standard, '
